@@ -20,8 +20,8 @@
 (*        (FnEval!Eval); it is the oracle of the conformance replay.       *)
 (* ilog = the result of every call under the implementation-shaped         *)
 (*        evaluator FnEval!EvalI (captured variables stored on the syntax  *)
-(*        token, shared argument-token lists, one mutable variables dict   *)
-(*        per scope).  It is NOT an oracle; TLC is asked to prove          *)
+(*        token, shared argument-token lists, fixed arguments evaluated at *)
+(*        call time).  It is NOT an oracle; TLC is asked to prove          *)
 (*        AsImplementedAgrees and must come back with a counterexample     *)
 (*        (the sharing defect as an invariant violation), and the replay   *)
 (*        uses it only to classify a failure ("observed = what the token   *)
